@@ -119,6 +119,25 @@ CHECKS.update({
    note=E1_NOTE + " A mismatch is reported only if 130 executions of the victim alone all produce the reference trace."),
 })
 
+# strengthening of round 8 (appended to the level text of the check)
+ROUND8 = {
+ "C01": "Plus closed loops on engine E2 (48/1600): half of them with 11-13 simulated pods that the REAL Kubernetes replicas/shard managers list (client-go fake, pods created in shuffled order) and scale, the targets sitting on high ordinals and scale-down enabled; per cycle in which every shard was in sync: a target listed before the cycle and still discovered is listed by a remaining shard after it.",
+ "C02": "Job paths and discovery-provided __metrics_path__ values include empty, dot and dot-dot segments and a trailing slash (sent verbatim by Prometheus).",
+ "C03": "Real-process special cases (2/8): a target answers 503 from the start, the coordinator's configuration is reloaded while it is down (discovery re-sends every target), then it serves again and must be probed again and assigned within 120 coordination cycles.",
+ "C04": "Plus real-process cases (2/8, engine E7): the estimates come from the real explorer probing targets whose bodies span several 64 KiB parser blocks; at every snapshot the true sample counts (known to the target farm) of the targets a shard lists stay below the process-series limit, and a target that alone exceeds it is listed nowhere.",
+ "C06": "Real-process special fault (2/8): a configuration reload, four cycles later the fullest shard's sidecar comes back on an empty volume.",
+ "C07": "The closed-loop family includes runs with 11-13 pods listed and scaled by the real Kubernetes managers under the removal monitor.",
+ "C09": "Mode refused: for every pair of assignment shapes and each of two reload callbacks failing, the refused (unacknowledged) update is followed by a restart, which must resume the assignment acknowledged before it; the repeated update must then persist.",
+ "C10": "One case in four leaves an old version's targets.json next to the current store before a restart.",
+ "C11": "Every second case changes the stop-scrape reason through the API (set, then cleared) and re-checks the file after each change and after the next targets update.",
+ "C12": "Plus 3/12 cases on the REAL sidecar process (proxy started by Proxy.Run): a 200-300 KB body whose header, tail or parts arrive over 11-31 s.",
+ "C14": "Plus 3/24 cases on the REAL sidecar process with a stub Prometheus whose head count changes between back-to-back runtimeinfo polls (head grows, or is truncated below the sum of target series).",
+ "C17": "Reloads carry per-job rule strictness (a second label value dropped or not), one reload in three keeps the job names and changes only job content, and every update is expected to be translated under the latest reload.",
+ "C18": "Plus listings with one or two pods missing and/or a foreign pod that carries the selector's labels (2-12 pods, six order classes): no position is ready unless the pod of that ordinal is listed with an IP, no ready shard appears twice.",
+ "C19": "Plus a soak family (2/8): the healthy replica in a closed loop (real api.Get/api.Post) next to a replica whose shard answers 503 with an error body for 150-400 cycles, in a child process whose RLIMIT_NOFILE is what was open after a warm-up plus 30-60, with a control run; a violation needs a cycle that does not complete AND the descriptor table being full.",
+ "C20": "One probe body in ten has 2500-5500 samples (several parser blocks).",
+}
+
 NOT_YET = {
 }
 
@@ -147,7 +166,7 @@ def main():
             "evidence_file": "/verif/evidence/%s.json" % pid,
             "replay_cmd_template": "./bin/vcheck replay {path}",
             "engine": c["engine"],
-            "level_claimed": {"category": c["level"], "text": c["text"], "design_ref": c["ref"]},
+            "level_claimed": {"category": c["level"], "text": (c["text"] + " " + ROUND8.get(pid, "")).strip(), "design_ref": c["ref"]},
             "level_note": c["note"],
             "technique": c["technique"],
         })
@@ -174,12 +193,12 @@ def main():
              "kind_free_text": "coordinator-side pipeline wired as cmd/kvass/coordinator.go; loopback HTTP targets; porcupine; race-detector pass"},
             {"name": "E6 kubernetes fake", "path": "harness/internal/e6", "serves_properties": ["C18", "C19"],
              "kind_free_text": "real kubernetes replicas/shard manager on client-go fake clientset; action log as event log; scripted StatefulSet lives with time passing through the verif hook"},
-            {"name": "E7 real processes", "path": "harness/internal/e7", "serves_properties": ["C03", "C06"],
+            {"name": "E7 real processes", "path": "harness/internal/e7", "serves_properties": ["C03", "C04", "C06"],
              "kind_free_text": "real kvass coordinator binary (static shard file, own discovery manager, explorer, API) + real kvass sidecar binaries + simulated Prometheus per shard + target farm; cycles counted and faults injected at a reverse proxy in front of the sidecar APIs"},
-            {"name": "E2 closed loop", "path": "harness/internal/e2", "serves_properties": ["C03", "C06"],
-             "kind_free_text": "real coordinator + real sidecars over loopback HTTP, simulated Prometheus/StatefulSet/target farm, stepped cycles, fault wrappers"},
+            {"name": "E2 closed loop", "path": "harness/internal/e2", "serves_properties": ["C01", "C03", "C05", "C06", "C07", "C19"],
+             "kind_free_text": "real coordinator + real sidecars over loopback HTTP, simulated Prometheus/StatefulSet/target farm, stepped cycles, fault wrappers; K8s mode: the simulated pods are listed and scaled by the real Kubernetes managers on a client-go fake; soak mode in a child process with a lowered descriptor limit"},
             {"name": "E3 sidecar", "path": "harness/internal/e3", "serves_properties": ["C09", "C10", "C12", "C13", "C14"],
-             "kind_free_text": "one real sidecar driven through its HTTP API and proxy; in-memory and raw-TCP targets; RLIMIT_FSIZE crash child; real binary under SIGKILL"},
+             "kind_free_text": "one real sidecar driven through its HTTP API and proxy; in-memory and raw-TCP targets; RLIMIT_FSIZE crash child; real binary under SIGKILL; real binary behind a scripted slow target and a stub Prometheus with a settable head count"},
         ],
         "checks": checks,
         "not_applicable": na,
